@@ -471,6 +471,15 @@ def make_fakes(sched, real_process_line, real_thread_line):
             sched.spawn(name, "W", w, body, on_exit)
 
         def join(self, timeout=None):
+            # like the real join: blocks the caller until the thread / process has really finished
+            # (a join on a loader that is parked on a full in_queue is a hang, found by the deadlock detection)
+            if sched.aborted:
+                me = sched.me()
+                if me is sched.main:
+                    raise Hang(sched.reason)
+                raise Abort()
+            sched.me()
+            sched.yield_point(lambda: not self._alive)
             return None
 
         def is_alive(self):
@@ -523,6 +532,15 @@ def make_fakes(sched, real_process_line, real_thread_line):
             sched.spawn("L", "L", None, body, on_exit)
 
         def join(self, timeout=None):
+            # like the real join: blocks the caller until the thread / process has really finished
+            # (a join on a loader that is parked on a full in_queue is a hang, found by the deadlock detection)
+            if sched.aborted:
+                me = sched.me()
+                if me is sched.main:
+                    raise Hang(sched.reason)
+                raise Abort()
+            sched.me()
+            sched.yield_point(lambda: not self._alive)
             return None
 
         def is_alive(self):
